@@ -1280,10 +1280,6 @@ func vmOptionsSetWhatTheyAreGiven(c *core.Ctx) {
 				if !ok || core.NamedOf(fa.X.Type()) != vmT {
 					continue
 				}
-				fv := fromFree(st.Val)
-				if fv == nil {
-					continue
-				}
 				n++
 				k++
 				bad := ""
@@ -1295,7 +1291,19 @@ func vmOptionsSetWhatTheyAreGiven(c *core.Ctx) {
 					if !ok {
 						continue
 					}
-					if core.DependsOn(iff.Cond, func(w ssa.Value) bool { return fromFree(w) == fv }) {
+					// (a test of what the option was made with, whether or not
+					// that is what is stored: WithGlobals given an empty map
+					// still says "these are the globals now")
+					if core.DependsOn(iff.Cond, func(w ssa.Value) bool { return fromFree(w) != nil }) {
+						bad = p.Pos(iff.Cond.Pos())
+					}
+					// ... or a test of the field itself ("only if it is not set yet"):
+					// the VM then keeps what an earlier evaluation gave it
+					// (a flag that is raised under a test of itself is a latch, not a setting)
+					if _, isLatch := st.Val.(*ssa.Const); !isLatch && core.DependsOn(iff.Cond, func(w ssa.Value) bool {
+						_, ok := loadOfField(w, vmT, fa.Field)
+						return ok
+					}) {
 						bad = p.Pos(iff.Cond.Pos())
 					}
 				}
@@ -3515,7 +3523,7 @@ func derivedOperandsAreDerivedLast(c *core.Ctx) {
 		}
 	}
 	if n == 0 {
-		core.Undecidedf("no compile function emits op.Length")
+		c.Pass("compiler|no-derived-length", "", "no compile function has a length computed at run time for an operand that the source leaves out")
 	}
 	c.Stat("derived_lengths", n)
 }
@@ -3969,4 +3977,1014 @@ func errorsAboutANodeAreReportedAtTheNode(c *core.Ctx) {
 		core.Undecidedf("only %d positioned error reports found in the compile functions", n)
 	}
 	c.Stat("positioned_reports", n)
+}
+
+// parseFnReturnsNil: the parse method has a path on which it returns nil.
+func parseFnReturnsNil(f *ssa.Function) bool {
+	if f == nil || f.Blocks == nil {
+		return false
+	}
+	for _, b := range f.Blocks {
+		for _, in := range b.Instrs {
+			ret, ok := in.(*ssa.Return)
+			if !ok || len(ret.Results) != 1 {
+				continue
+			}
+			for _, o := range core.Origins(spilledResult(b, ret.Results[0])) {
+				if k, ok := o.(*ssa.Const); ok && k.IsNil() {
+					return true
+				}
+			}
+		}
+	}
+	return false
+}
+
+// ---------------------------------------------------------------------------
+// parseResultsAreNotUsedBeforeTheyAreTested: what a parse function returned is
+// nil when the input was wrong there.  The parser calls no method on such a
+// result (key.String() for a better message) before it has tested it for nil:
+// the arguments of an error message are evaluated before the message is, and
+// the nil dereference leaves parser.Parse as a Go panic.
+func parseResultsAreNotUsedBeforeTheyAreTested(c *core.Ctx) {
+	p := c.P
+	pp := p.Pkg("parser")
+	parserT := core.MustType(pp, "Parser")
+	n := 0
+	for _, fn := range repoFns(p, "parser") {
+		k := 0
+		for _, b := range fn.Blocks {
+			for _, in := range b.Instrs {
+				ci, ok := in.(ssa.CallInstruction)
+				if !ok || !ci.Common().IsInvoke() {
+					continue
+				}
+				recv := ci.Common().Value
+				// where the receiver comes from: a parse method that can return nil
+				var src *ssa.Call
+				for _, o := range core.Origins(recv) {
+					if ta, ok := o.(*ssa.TypeAssert); ok {
+						for _, o2 := range core.Origins(ta.X) {
+							o = o2
+						}
+					}
+					if ex, ok := o.(*ssa.Extract); ok {
+						o = ex.Tuple
+						if ta, ok := o.(*ssa.TypeAssert); ok {
+							for _, o2 := range core.Origins(ta.X) {
+								o = o2
+							}
+						}
+					}
+					call, ok := o.(*ssa.Call)
+					if !ok {
+						continue
+					}
+					cal := call.Call.StaticCallee()
+					if cal != nil && cal.Signature.Recv() != nil && core.NamedOf(cal.Signature.Recv().Type()) == parserT && parseFnReturnsNil(cal) {
+						src = call
+					}
+				}
+				if src == nil {
+					continue
+				}
+				n++
+				k++
+				// a nil test of the value (or of something made from it) dominates the call
+				tested := false
+				for _, b2 := range fn.Blocks {
+					if len(b2.Instrs) == 0 || b2 == b || !b2.Dominates(b) {
+						continue
+					}
+					iff, ok := b2.Instrs[len(b2.Instrs)-1].(*ssa.If)
+					if !ok {
+						continue
+					}
+					switch cond := iff.Cond.(type) {
+					case *ssa.BinOp:
+						for _, side := range []ssa.Value{cond.X, cond.Y} {
+							if side == recv || core.DependsOn(side, func(w ssa.Value) bool { return w == ssa.Value(src) }) {
+								tested = true
+							}
+						}
+					case *ssa.Extract:
+						// the ok of a two-valued assertion of the value
+						if ta, ok := cond.Tuple.(*ssa.TypeAssert); ok && core.DependsOn(ta.X, func(w ssa.Value) bool { return w == ssa.Value(src) }) {
+							tested = true
+						}
+					}
+				}
+				c.Check(tested, core.SSAName(fn)+"|"+src.Call.StaticCallee().Name()+"."+ci.Common().Method.Name()+"|tested-before-use|"+sprintf("%d", k), p.Pos(in.Pos()),
+					fn.Name()+" calls "+ci.Common().Method.Name()+"() on what "+src.Call.StaticCallee().Name()+" returned"+ife(tested, " after testing it", " without testing it for nil: "+src.Call.StaticCallee().Name()+" returns nil where the input is wrong, and the call is a nil dereference that leaves parser.Parse as a panic"))
+			}
+		}
+	}
+	if n == 0 {
+		c.Pass("parser|no-method-call-on-a-parse-result", "", "the parser calls no method on the result of a parse function that can return nil")
+	}
+	c.Stat("methods_called_on_parse_results", n)
+}
+
+// ---------------------------------------------------------------------------
+// whatErrorsAsFoundIsUsedOnlyWhenItFoundIt: errors.As fills its target only
+// when it returns true.  A method is called on the target only where that
+// answer was tested: the message-formatting methods of the errors that the API
+// returns run in the host, outside every recover, and a nil interface there is
+// a panic in the caller of Eval.
+func whatErrorsAsFoundIsUsedOnlyWhenItFoundIt(c *core.Ctx) {
+	p := c.P
+	n := 0
+	for _, fn := range repoFns(p) {
+		k := 0
+		for _, b := range fn.Blocks {
+			for _, in := range b.Instrs {
+				call, ok := in.(*ssa.Call)
+				if !ok {
+					continue
+				}
+				cal := call.Call.StaticCallee()
+				if cal == nil || cal.Pkg == nil || cal.Pkg.Pkg.Path() != "errors" || cal.Name() != "As" || len(call.Call.Args) != 2 {
+					continue
+				}
+				// the target variable
+				var target *ssa.Alloc
+				for _, o := range core.Origins(call.Call.Args[1]) {
+					if mi, ok := o.(*ssa.MakeInterface); ok {
+						o = mi.X
+					}
+					if al, ok := o.(*ssa.Alloc); ok {
+						target = al
+					}
+				}
+				if target == nil || target.Referrers() == nil {
+					continue
+				}
+				if _, isIface := target.Type().(*types.Pointer).Elem().Underlying().(*types.Interface); !isIface {
+					if _, isPtr := target.Type().(*types.Pointer).Elem().Underlying().(*types.Pointer); !isPtr {
+						continue
+					}
+				}
+				n++
+				k++
+				// the block entered when As said yes
+				var yes *ssa.BasicBlock
+				if call.Referrers() != nil {
+					for _, r := range *call.Referrers() {
+						if iff, ok := r.(*ssa.If); ok {
+							yes = iff.Block().Succs[0]
+						}
+						if un, ok := r.(*ssa.UnOp); ok && un.Op == token.NOT && un.Referrers() != nil {
+							for _, r2 := range *un.Referrers() {
+								if iff, ok := r2.(*ssa.If); ok {
+									yes = iff.Block().Succs[1]
+								}
+							}
+						}
+					}
+				}
+				bad := ""
+				for _, r := range *target.Referrers() {
+					ld, ok := r.(*ssa.UnOp)
+					if !ok || ld.Op != token.MUL || ld.Referrers() == nil || !instrReaches(call, ld) {
+						continue
+					}
+					for _, r2 := range *ld.Referrers() {
+						use, ok := r2.(ssa.CallInstruction)
+						if !ok {
+							continue
+						}
+						isRecv := use.Common().IsInvoke() && use.Common().Value == ssa.Value(ld)
+						if !isRecv {
+							if fa, ok := r2.(*ssa.FieldAddr); ok {
+								_ = fa
+							}
+							continue
+						}
+						ub := use.Block()
+						if yes == nil || !(ub == yes || yes.Dominates(ub)) {
+							bad = p.Pos(use.Pos())
+						}
+					}
+				}
+				c.Check(bad == "", core.SSAName(fn)+"|errors.As|target-used-only-when-found|"+sprintf("%d", k), p.Pos(call.Pos()),
+					fn.Name()+" asks errors.As for an error of some kind"+ife(bad == "", " and calls its methods only where As said it found one", " and calls a method on the target at "+bad+" whether As found one or not: when it did not, the target is nil and the call panics in whoever formats the error"))
+			}
+		}
+	}
+	if n == 0 {
+		c.Pass("repo|no-errors.As-into-an-interface", "", "no call of errors.As with an interface or pointer target")
+	}
+	c.Stat("errors_as_calls", n)
+}
+
+// ---------------------------------------------------------------------------
+// convertersDoNotFormatTheValue: a converter takes the Go value as it is (by a
+// type assertion or through reflect) and makes the script value of it.  It
+// does not print the value with fmt to get at its content: fmt honours
+// String() and Error() methods, and a named string type that has one arrives
+// as that text instead of its value - and is written back as that text.
+func convertersDoNotFormatTheValue(c *core.Ctx) {
+	p := c.P
+	_, from := converterMethods(p)
+	n := 0
+	for _, fn := range from {
+		if len(fn.Params) < 2 {
+			continue
+		}
+		prm := ssa.Value(fn.Params[1])
+		n++
+		bad := ""
+		for _, b := range fn.Blocks {
+			for _, in := range b.Instrs {
+				call, ok := in.(*ssa.Call)
+				if !ok {
+					continue
+				}
+				cal := call.Call.StaticCallee()
+				if cal == nil || cal.Pkg == nil || cal.Pkg.Pkg.Path() != "fmt" || !strings.HasPrefix(cal.Name(), "Sprint") {
+					continue
+				}
+				// the value is among what is printed, and the print is what the result is made of
+				printsValue := false
+				for _, a := range call.Call.Args {
+					for _, v := range variadicVals(a) {
+						if core.DependsOn(v, func(w ssa.Value) bool { return w == prm }) {
+							printsValue = true
+						}
+					}
+				}
+				if !printsValue {
+					continue
+				}
+				for _, b2 := range fn.Blocks {
+					for _, in2 := range b2.Instrs {
+						ret, ok := in2.(*ssa.Return)
+						if !ok || len(ret.Results) == 0 {
+							continue
+						}
+						// (an error message may name the value)
+						if len(ret.Results) == 2 {
+							if k, isK := spilledResult(b2, ret.Results[1]).(*ssa.Const); !isK || !k.IsNil() {
+								continue
+							}
+						}
+						if core.DependsOn(spilledResult(b2, ret.Results[0]), func(w ssa.Value) bool { return w == ssa.Value(call) }) {
+							bad = p.Pos(call.Pos())
+						}
+					}
+				}
+			}
+		}
+		c.Check(bad == "", core.SSAName(fn)+"|value-not-formatted", p.Pos(fn.Pos()),
+			core.SSAName(fn)+ife(bad == "", " makes the script value of the Go value itself", " makes the script value of what fmt prints for the Go value (at "+bad+"): a type with a String() or Error() method arrives as that text, not as its value"))
+	}
+	if n < 10 {
+		core.Undecidedf("only %d From methods of converters found", n)
+	}
+	c.Stat("from_methods", n)
+}
+
+// ---------------------------------------------------------------------------
+// theVirtualOSKeepsNoMapOfTheHost: an option of the virtual OS that takes a map
+// or a slice copies what is in it.  A host builds one OS per evaluation from
+// one base map; an option that keeps the map itself makes all those OS objects
+// share it, each behind its own lock: setenv in one evaluation and getenv in
+// another are a data race on one Go map, and what one sets the others see.
+func theVirtualOSKeepsNoMapOfTheHost(c *core.Ctx) {
+	p := c.P
+	osP := p.Pkg("os")
+	vosT := core.MustType(osP, "VirtualOS")
+	n := 0
+	for _, fn := range repoFns(p, "os") {
+		if fn.Parent() == nil || fn.Signature.Params().Len() != 1 {
+			continue
+		}
+		if pt, ok := fn.Signature.Params().At(0).Type().(*types.Pointer); !ok || core.NamedOf(pt.Elem()) != vosT {
+			continue
+		}
+		k := 0
+		for _, b := range fn.Blocks {
+			for _, in := range b.Instrs {
+				st, ok := in.(*ssa.Store)
+				if !ok {
+					continue
+				}
+				fa, ok := st.Addr.(*ssa.FieldAddr)
+				if !ok || core.NamedOf(fa.X.Type()) != vosT {
+					continue
+				}
+				// (a slice that is only read is covered by C09-R20, which asks
+				// for a copy where the repository writes into it)
+				if _, isMap := st.Val.Type().Underlying().(*types.Map); !isMap {
+					continue
+				}
+				n++
+				k++
+				alias := false
+				for _, o := range core.Origins(st.Val) {
+					if _, ok := o.(*ssa.FreeVar); ok {
+						alias = true
+					}
+					if u, ok := o.(*ssa.UnOp); ok && u.Op == token.MUL {
+						if _, ok := u.X.(*ssa.FreeVar); ok {
+							alias = true
+						}
+					}
+				}
+				c.Check(!alias, core.SSAName(fn.Parent())+"|VirtualOS."+fieldNameOf(vosT, fa.Field)+"|own-storage|"+sprintf("%d", k), p.Pos(st.Pos()),
+					"the option that "+fn.Parent().Name()+" makes gives the OS a "+fieldNameOf(vosT, fa.Field)+ife(!alias, " of its own", " that is the map (or slice) the host passed in: every OS built from the same one shares it, each behind its own lock, and what a script sets in one evaluation shows in the others and in the host's map"))
+			}
+		}
+	}
+	if n == 0 {
+		c.Pass("os|options-store-no-container", "", "no option of the virtual OS stores a map or a slice")
+	}
+	c.Stat("os_option_container_stores", n)
+}
+
+// ---------------------------------------------------------------------------
+// aCloneHasTheConfigurationOfItsOriginal: what the options of the VM set (the
+// importer, the OS, whether goroutines are allowed, the globals the host gave)
+// is the configuration of the evaluation, and a clone - the VM a thread runs
+// on - is made with the same configuration.  A field that Clone leaves at its
+// zero value changes what the thread may do: without concAllowed a thread
+// cannot start a thread, and a dispatcher that spawns its workers fails.
+var notCarriedIntoAClone = map[string]string{
+	"ip":           "a clone starts at the beginning of what it is asked to call, not where its original stands",
+	"globalsGiven": "bookkeeping of one round of options (whether WithGlobals was seen), not configuration",
+}
+
+func aCloneHasTheConfigurationOfItsOriginal(c *core.Ctx) {
+	p := c.P
+	vmT := vmType(p)
+	// the fields that options set
+	set := map[int]bool{}
+	for _, fn := range repoFns(p, "vm") {
+		if fn.Parent() == nil || fn.Signature.Params().Len() != 1 || fn.Signature.Recv() != nil {
+			continue
+		}
+		if pt, ok := fn.Signature.Params().At(0).Type().(*types.Pointer); !ok || core.NamedOf(pt.Elem()) != vmT {
+			continue
+		}
+		for _, b := range fn.Blocks {
+			for _, in := range b.Instrs {
+				if st, ok := in.(*ssa.Store); ok {
+					if fa, ok := st.Addr.(*ssa.FieldAddr); ok && core.NamedOf(fa.X.Type()) == vmT {
+						set[fa.Field] = true
+					}
+				}
+			}
+		}
+	}
+	if len(set) < 3 {
+		core.Undecidedf("only %d fields of the VM are set by options", len(set))
+	}
+	var clone *ssa.Function
+	for _, fn := range repoFns(p, "vm") {
+		if fn.Name() == "Clone" && fn.Signature.Recv() != nil && core.NamedOf(fn.Signature.Recv().Type()) == vmT && fn.Parent() == nil {
+			clone = fn
+		}
+	}
+	if clone == nil {
+		core.Undecidedf("VirtualMachine.Clone not found")
+	}
+	bodies := []*ssa.Function{clone}
+	for _, b := range clone.Blocks {
+		for _, in := range b.Instrs {
+			if ci, ok := in.(ssa.CallInstruction); ok {
+				if cal := ci.Common().StaticCallee(); cal != nil && cal.Blocks != nil && cal.Signature.Recv() != nil && core.NamedOf(cal.Signature.Recv().Type()) == vmT {
+					bodies = append(bodies, cal)
+				}
+			}
+		}
+	}
+	written := map[int]bool{}
+	for _, f := range bodies {
+		recv := ssa.Value(f.Params[0])
+		for _, b := range f.Blocks {
+			for _, in := range b.Instrs {
+				if st, ok := in.(*ssa.Store); ok {
+					if fa, ok := st.Addr.(*ssa.FieldAddr); ok && core.NamedOf(fa.X.Type()) == vmT && (f != clone || fa.X != recv) {
+						written[fa.Field] = true
+					}
+				}
+			}
+		}
+	}
+	var idxs []int
+	for i := range set {
+		idxs = append(idxs, i)
+	}
+	sort.Ints(idxs)
+	n := 0
+	for _, i := range idxs {
+		name := fieldNameOf(vmT, i)
+		n++
+		why, listed := notCarriedIntoAClone[name]
+		c.Check(written[i] || listed, "vm.VirtualMachine.Clone|"+name+"|carried-into-the-clone", p.Pos(clone.Pos()),
+			"options set "+name+ife(written[i], ", and Clone gives the new VM a value for it", ife(listed, ", and Clone leaves it alone: "+why, ", and Clone leaves it at its zero value in the new VM: a thread runs with another configuration than the evaluation that started it")))
+	}
+	c.Stat("configuration_fields", n)
+}
+
+// ---------------------------------------------------------------------------
+// removalsAreAppliedAlsoWhenAnOverrideFails: a configuration is initialised
+// once; what it removes is removed on every path through that initialisation.
+// A return with the error of a refused override before the removals have been
+// applied leaves every denied name in place for good (initialised is set
+// already), and a host that drives the compiler and the VM from the Config
+// itself never sees the error.
+func removalsAreAppliedAlsoWhenAnOverrideFails(c *core.Ctx) {
+	p := c.P
+	root := p.Pkg("")
+	cfgT := core.MustType(root, "Config")
+	initM := core.Method(cfgT, "init")
+	denyM := core.Method(cfgT, "applyDenylist")
+	if initM == nil || denyM == nil {
+		core.Undecidedf("Config.init / Config.applyDenylist not found")
+	}
+	fn, deny := p.SSAFunc(initM), p.SSAFunc(denyM)
+	iIdx := fieldIdxByName(cfgT, "initialized")
+	var marks []*ssa.Store
+	if iIdx >= 0 {
+		marks = storesToField(fn, cfgT, iIdx)
+	}
+	var call ssa.Instruction
+	for _, b := range fn.Blocks {
+		for _, in := range b.Instrs {
+			if ci, ok := in.(ssa.CallInstruction); ok && ci.Common().StaticCallee() == deny {
+				call = in
+			}
+		}
+	}
+	if call == nil {
+		c.Check(false, "risor.Config.init|applyDenylist|on-every-path", p.Pos(fn.Pos()), "Config.init does not apply the removals")
+		return
+	}
+	bad := ""
+	for _, b := range fn.Blocks {
+		for _, in := range b.Instrs {
+			ret, ok := in.(*ssa.Return)
+			if !ok {
+				continue
+			}
+			after := len(marks) == 0
+			for _, m := range marks {
+				if instrReaches(m, ret) {
+					after = true
+				}
+			}
+			if after && !instrDominates(call, ret) {
+				bad = p.Pos(ret.Pos())
+			}
+		}
+	}
+	c.Check(bad == "", "risor.Config.init|applyDenylist|on-every-path", p.Pos(call.Pos()),
+		"Config.init applies the removals"+ife(bad == "", " on every path on which it initialises the configuration", "; the return at "+bad+" comes before them: after a refused override the configuration counts as initialised and every name it was to remove is still there"))
+}
+
+// ---------------------------------------------------------------------------
+// theMountLookupIsGivenThePathAsItCame: an operation of the virtual OS hands
+// the mount lookup the path string it was given, and the lookup makes it
+// absolute and cleans it.  A path that was edited on the way (trailing
+// separators trimmed: "/" becomes "") means something else to the lookup (an
+// empty path is relative, and is served from the working directory): the root
+// is then served by whatever mount the working directory is in.
+func theMountLookupIsGivenThePathAsItCame(c *core.Ctx) {
+	p := c.P
+	osP := p.Pkg("os")
+	vosT := core.MustType(osP, "VirtualOS")
+	n := 0
+	for _, m := range core.Methods(vosT) {
+		fn := p.SSAFunc(m)
+		if fn == nil || fn.Blocks == nil || m.Name() == "findMount" {
+			continue
+		}
+		k := 0
+		for _, b := range fn.Blocks {
+			for _, in := range b.Instrs {
+				call, ok := in.(*ssa.Call)
+				if !ok {
+					continue
+				}
+				cal := call.Call.StaticCallee()
+				if cal == nil || cal.Name() != "findMount" || len(call.Call.Args) < 2 {
+					continue
+				}
+				n++
+				k++
+				asItCame := true
+				what := ""
+				for _, o := range core.Origins(call.Call.Args[1]) {
+					if _, isParam := o.(*ssa.Parameter); isParam {
+						continue
+					}
+					// (a path that the method puts together itself with filepath.Join,
+					// the temporary directory of MkdirTemp, is not an edited path)
+					if oc, ok := o.(*ssa.Call); ok {
+						if c2 := oc.Call.StaticCallee(); c2 != nil && c2.Pkg != nil && c2.Pkg.Pkg.Path() == "path/filepath" && (c2.Name() == "Join" || c2.Name() == "Clean") {
+							continue
+						}
+					}
+					asItCame = false
+					what = o.String()
+				}
+				c.Check(asItCame, "os.VirtualOS."+m.Name()+"|findMount|path-as-it-came|"+sprintf("%d", k), p.Pos(call.Pos()),
+					"VirtualOS."+m.Name()+" looks up the mount for"+ife(asItCame, " the path it was given", " a path it has edited first ("+what+"): the lookup cleans paths itself, and an edited path can mean another place to it (\"/\" trimmed to \"\" is the working directory)"))
+			}
+		}
+	}
+	if n < 10 {
+		core.Undecidedf("only %d mount lookups found in the methods of VirtualOS", n)
+	}
+	c.Stat("mount_lookups_in_methods", n)
+}
+
+// ---------------------------------------------------------------------------
+// whereTheVMKeepsScriptValuesIsEnumerated: the VM holds script values in its
+// operand stack, the frames, the scratch array for arguments, the globals and
+// the table of modules - and nowhere else.  A new field that keeps objects
+// between instructions (a memo of what a from-imported name resolved to) is a
+// second copy of state that the script can change in the first place: the next
+// from-import of the name is handed the value of the first one, and importers
+// of one module no longer see the same module.
+var vmFieldsThatHoldScriptValues = map[string]string{
+	"modules": "the modules that have been imported, by name (what every importer of a name gets)",
+	"globals": "the host's globals as objects (the array of each loaded code is filled from it)",
+	"tmp":     "scratch space for the arguments of the call that is being set up",
+	"stack":   "the operand stack",
+	"frames":  "the frames of the calls in progress (locals, defers)",
+}
+
+func whereTheVMKeepsScriptValuesIsEnumerated(c *core.Ctx) {
+	p := c.P
+	vmT := vmType(p)
+	op := p.Pkg("object")
+	objI := core.MustType(op, "Object").Underlying().(*types.Interface)
+	frameT := core.LookupType(p.Pkg("vm"), "frame")
+	var holds func(t types.Type, d int) bool
+	holds = func(t types.Type, d int) bool {
+		if d > 4 {
+			return false
+		}
+		if nt := core.NamedOf(t); nt != nil {
+			if nt == frameT {
+				return true
+			}
+			if nt.Obj().Pkg() == op.Types {
+				if types.Implements(t, objI) || types.Implements(types.NewPointer(nt), objI) || nt.Obj().Name() == "Object" {
+					return true
+				}
+			}
+		}
+		switch x := t.Underlying().(type) {
+		case *types.Pointer:
+			if core.NamedOf(x.Elem()) != nil && core.NamedOf(x.Elem()).Obj().Pkg() != op.Types && core.NamedOf(x.Elem()) != frameT {
+				return false
+			}
+			return holds(x.Elem(), d+1)
+		case *types.Map:
+			return holds(x.Elem(), d+1) || holds(x.Key(), d+1)
+		case *types.Slice:
+			return holds(x.Elem(), d+1)
+		case *types.Array:
+			return holds(x.Elem(), d+1)
+		}
+		return false
+	}
+	st := vmT.Underlying().(*types.Struct)
+	n := 0
+	for i := 0; i < st.NumFields(); i++ {
+		f := st.Field(i)
+		if !holds(f.Type(), 0) {
+			continue
+		}
+		// (the frame the VM is in is a pointer into the frames)
+		if f.Name() == "activeFrame" {
+			continue
+		}
+		n++
+		why, listed := vmFieldsThatHoldScriptValues[f.Name()]
+		c.Check(listed, "vm.VirtualMachine."+f.Name()+"|enumerated-holder-of-script-values", p.Pos(f.Pos()),
+			"VirtualMachine."+f.Name()+" holds script values"+ife(listed, ": "+why, " and is not one of the places where the VM is known to keep them: what it remembers there is a second copy of state that the script can change where it really lives, and goes stale"))
+	}
+	if n < 4 {
+		core.Undecidedf("only %d fields of the VM hold script values", n)
+	}
+	c.Stat("vm_value_holders", n)
+}
+
+// ---------------------------------------------------------------------------
+// containersSayThemselvesWhetherTheyAreEmpty: a container is truthy exactly
+// when its length is not zero.  The answer that the shared base of the object
+// types gives for everything (true) is wrong for an empty container, so every
+// type that has a length answers IsTruthy itself.  A clean-up that removes a
+// method "which only repeats the embedded base" removes the one method that
+// did not.
+func containersSayThemselvesWhetherTheyAreEmpty(c *core.Ctx) {
+	p := c.P
+	op := p.Pkg("object")
+	objI := core.MustType(op, "Object").Underlying().(*types.Interface)
+	sc := op.Types.Scope()
+	n := 0
+	for _, name := range sc.Names() {
+		tn, ok := sc.Lookup(name).(*types.TypeName)
+		if !ok {
+			continue
+		}
+		nt, ok := tn.Type().(*types.Named)
+		if !ok {
+			continue
+		}
+		if _, isStruct := nt.Underlying().(*types.Struct); !isStruct || !types.Implements(types.NewPointer(nt), objI) {
+			continue
+		}
+		ms := types.NewMethodSet(types.NewPointer(nt))
+		if ms.Lookup(op.Types, "Len") == nil {
+			continue
+		}
+		n++
+		sel := ms.Lookup(op.Types, "IsTruthy")
+		own := sel != nil && len(sel.Index()) == 1
+		c.Check(own, "object."+name+"|IsTruthy|its-own", p.Pos(tn.Pos()),
+			name+" has a length"+ife(own, " and answers IsTruthy itself", " and leaves IsTruthy to the type it embeds, which says true for everything: an empty "+name+" is truthy"))
+	}
+	if n < 5 {
+		core.Undecidedf("only %d object types with a length found", n)
+	}
+	c.Stat("types_with_a_length", n)
+}
+
+// ---------------------------------------------------------------------------
+// membershipDoesNotRoundTheProbe: x in c holds when c has an item that == x.
+// A Contains method that turns a float probe into an integer to look it up
+// tests first that the float is a whole number (by converting back and
+// comparing, or with math.Trunc/Floor): otherwise 97.5 is found in a byte
+// slice that holds 97, which iterating and comparing does not find.
+func membershipDoesNotRoundTheProbe(c *core.Ctx) {
+	p := c.P
+	n := 0
+	for _, fn := range repoFns(p, "object") {
+		if fn.Signature.Recv() == nil || fn.Parent() != nil {
+			continue
+		}
+		switch fn.Name() {
+		case "Contains", "Index", "Count", "HasKey":
+		default:
+			continue
+		}
+		k := 0
+		for _, b := range fn.Blocks {
+			for _, in := range b.Instrs {
+				cv, ok := in.(*ssa.Convert)
+				if !ok {
+					continue
+				}
+				sb, ok1 := cv.X.Type().Underlying().(*types.Basic)
+				db, ok2 := cv.Type().Underlying().(*types.Basic)
+				if !ok1 || !ok2 || sb.Info()&types.IsFloat == 0 || db.Info()&types.IsInteger == 0 {
+					continue
+				}
+				if _, isK := cv.X.(*ssa.Const); isK {
+					continue
+				}
+				n++
+				k++
+				whole := false
+				for _, b2 := range fn.Blocks {
+					for _, in2 := range b2.Instrs {
+						switch x := in2.(type) {
+						case *ssa.Call:
+							if cal := x.Call.StaticCallee(); cal != nil && cal.Pkg != nil && cal.Pkg.Pkg.Path() == "math" {
+								switch cal.Name() {
+								case "Trunc", "Floor", "Ceil", "Round", "Mod", "Modf":
+									if len(x.Call.Args) > 0 && (x.Call.Args[0] == cv.X || core.SameStorage(x.Call.Args[0], cv.X)) {
+										whole = true
+									}
+								}
+							}
+						case *ssa.BinOp:
+							if x.Op != token.EQL && x.Op != token.NEQ {
+								continue
+							}
+							// float(int(v)) == v
+							for _, pair := range [][2]ssa.Value{{x.X, x.Y}, {x.Y, x.X}} {
+								back, ok := pair[0].(*ssa.Convert)
+								if !ok {
+									continue
+								}
+								if inner, ok := back.X.(*ssa.Convert); ok && (inner.X == cv.X || core.SameStorage(inner.X, cv.X)) && (pair[1] == cv.X || core.SameStorage(pair[1], cv.X)) {
+									whole = true
+								}
+							}
+						}
+					}
+				}
+				c.Check(whole, core.SSAName(fn)+"|float-probe-tested-for-a-whole-number|"+sprintf("%d", k), p.Pos(cv.Pos()),
+					core.SSAName(fn)+" turns a float into an integer to look it up"+ife(whole, " after testing that it is a whole number", " without testing that it is a whole number: a probe with a fraction is found where an item equals its integer part (97.5 in byte_slice(\"a\"))"))
+			}
+		}
+	}
+	if n == 0 {
+		c.Pass("object|membership-converts-no-float-probe", "", "no membership method turns a float probe into an integer")
+	}
+	c.Stat("float_probes_converted", n)
+}
+
+// ---------------------------------------------------------------------------
+// mutableValuesAreNotShared: a method that hands the script a list, a map, a
+// set or another value that the script can change hands it one of its own.
+// A package-level value of such a type (one empty list for every empty slice)
+// is the same object for every caller in the process: what one script appends
+// to its empty slice turns up in every other empty slice, also in other
+// evaluations.
+func mutableValuesAreNotShared(c *core.Ctx) {
+	p := c.P
+	op := p.Pkg("object")
+	mutable := map[*types.Named]bool{}
+	for _, name := range []string{"List", "Map", "Set", "ByteSlice", "FloatSlice", "Buffer"} {
+		if t := core.LookupType(op, name); t != nil {
+			mutable[t] = true
+		}
+	}
+	n := 0
+	for _, rel := range []string{"object", "builtins"} {
+		for _, fn := range repoFns(p, rel) {
+			k := 0
+			for _, b := range fn.Blocks {
+				for _, in := range b.Instrs {
+					ret, ok := in.(*ssa.Return)
+					if !ok {
+						continue
+					}
+					for _, res := range ret.Results {
+						for _, o := range originsThroughInterfaces(spilledResult(b, res)) {
+							u, ok := o.(*ssa.UnOp)
+							if !ok || u.Op != token.MUL {
+								continue
+							}
+							g, ok := u.X.(*ssa.Global)
+							if !ok || !core.InRepo(g.Pkg.Pkg) {
+								continue
+							}
+							nt := core.NamedOf(u.Type())
+							if nt == nil || !mutable[nt] {
+								continue
+							}
+							n++
+							k++
+							c.Check(false, core.SSAName(fn)+"|"+g.Name()+"|not-a-shared-mutable-value|"+sprintf("%d", k), p.Pos(ret.Pos()),
+								core.SSAName(fn)+" returns the package-level "+nt.Obj().Name()+" "+g.Name()+": every caller in the process gets the same object, and what one script does to it (append, assign) shows in what every other script gets")
+						}
+					}
+				}
+			}
+		}
+	}
+	if n == 0 {
+		c.Pass("object|no-package-level-mutable-value-returned", "", "no function of object or builtins returns a package-level list, map, set, byte slice, float slice or buffer")
+	}
+	c.Stat("shared_mutable_returns", n)
+}
+
+// ---------------------------------------------------------------------------
+// anUpdateWritesTheArgumentLast: m.update(other) leaves m with other's value
+// for every key they share.  Whatever the method builds on the way, no entry
+// of the receiver is written into the result after an entry of the argument:
+// a faster path that fills a new map with the argument's entries first and
+// copies the receiver's over them keeps the old values for the shared keys.
+func anUpdateWritesTheArgumentLast(c *core.Ctx) {
+	p := c.P
+	n := 0
+	for _, fn := range repoFns(p, "object") {
+		if fn.Name() != "Update" || fn.Signature.Recv() == nil || len(fn.Params) < 2 || fn.Parent() != nil {
+			continue
+		}
+		recv, arg := ssa.Value(fn.Params[0]), ssa.Value(fn.Params[1])
+		// the map updates, by whose entries they write
+		source := func(mu *ssa.MapUpdate) ssa.Value {
+			var from ssa.Value
+			core.DependsOn(mu.Value, func(w ssa.Value) bool {
+				if nx, ok := w.(*ssa.Next); ok {
+					if rg, ok := nx.Iter.(*ssa.Range); ok {
+						if u, ok := rg.X.(*ssa.UnOp); ok {
+							if fa, ok := u.X.(*ssa.FieldAddr); ok {
+								from = fa.X
+							}
+						}
+					}
+				}
+				return false
+			})
+			return from
+		}
+		var fromRecv, fromArg []*ssa.MapUpdate
+		for _, b := range fn.Blocks {
+			for _, in := range b.Instrs {
+				if mu, ok := in.(*ssa.MapUpdate); ok {
+					switch source(mu) {
+					case recv:
+						fromRecv = append(fromRecv, mu)
+					case arg:
+						fromArg = append(fromArg, mu)
+					}
+				}
+			}
+		}
+		if len(fromArg) == 0 {
+			continue
+		}
+		n++
+		bad := ""
+		for _, r := range fromRecv {
+			for _, a := range fromArg {
+				same := false
+				for _, o := range core.Origins(r.Map) {
+					for _, o2 := range core.Origins(a.Map) {
+						if o == o2 {
+							same = true
+						}
+					}
+				}
+				if same && instrReaches(a, r) && !instrReaches(r, a) {
+					bad = p.Pos(r.Pos())
+				}
+			}
+		}
+		c.Check(bad == "", core.SSAName(fn)+"|argument-written-last", p.Pos(fn.Pos()),
+			core.SSAName(fn)+" writes the entries of its argument"+ife(bad == "", " and no entry of the receiver after them", " and then, at "+bad+", the entries of the receiver over them: for a key that both have, the old value stays"))
+	}
+	if n == 0 {
+		core.Undecidedf("no Update method writes the entries of its argument into a map")
+	}
+	c.Stat("update_methods", n)
+}
+
+// ---------------------------------------------------------------------------
+// theLoaderTakesSymbolsAsTheyWereStored: the stored form of a symbol table
+// says for every free variable which symbol it is (name, index, constness).
+// The loader builds exactly that.  It does not look a name up in the tables
+// that enclose the one it is building: at load time every declaration of the
+// program is present, also one that came after the closure was compiled, so a
+// lookup by name can find another variable than the compiler did, and the
+// reloaded code marshals to other bytes than the original.
+func theLoaderTakesSymbolsAsTheyWereStored(c *core.Ctx) {
+	p := c.P
+	cp := p.Pkg("compiler")
+	stT := core.MustType(cp, "SymbolTable")
+	nIdx := fieldIdxByName(stT, "symbolsByName")
+	unm := core.LookupFunc(cp, "UnmarshalCode")
+	if nIdx < 0 || unm == nil {
+		core.Undecidedf("compiler.SymbolTable.symbolsByName / UnmarshalCode not found")
+	}
+	storeFile := p.Fset.Position(unm.Pos()).Filename
+	// functions of the loader, and the methods of the symbol table that only it calls
+	var scope []*ssa.Function
+	for _, fn := range repoFns(p, "compiler") {
+		if p.Fset.Position(fn.Pos()).Filename == storeFile {
+			scope = append(scope, fn)
+		}
+	}
+	inScope := map[*ssa.Function]bool{}
+	for _, f := range scope {
+		inScope[f] = true
+	}
+	for _, f := range append([]*ssa.Function{}, scope...) {
+		for _, b := range f.Blocks {
+			for _, in := range b.Instrs {
+				if ci, ok := in.(ssa.CallInstruction); ok {
+					if cal := ci.Common().StaticCallee(); cal != nil && cal.Blocks != nil && cal.Signature.Recv() != nil && core.NamedOf(cal.Signature.Recv().Type()) == stT && !inScope[cal] {
+						// only if nothing outside the loader calls it
+						onlyLoader := true
+						for _, g := range repoFns(p, "compiler") {
+							if inScope[g] {
+								continue
+							}
+							for _, b2 := range g.Blocks {
+								for _, in2 := range b2.Instrs {
+									if c2, ok := in2.(ssa.CallInstruction); ok && c2.Common().StaticCallee() == cal {
+										onlyLoader = false
+									}
+								}
+							}
+						}
+						if onlyLoader {
+							inScope[cal] = true
+							scope = append(scope, cal)
+						}
+					}
+				}
+			}
+		}
+	}
+	n := 0
+	for _, fn := range scope {
+		looks := ""
+		for _, b := range fn.Blocks {
+			for _, in := range b.Instrs {
+				lk, ok := in.(*ssa.Lookup)
+				if !ok {
+					continue
+				}
+				if _, ok := loadOfField(lk.X, stT, nIdx); ok {
+					looks = p.Pos(lk.Pos())
+				}
+			}
+		}
+		n++
+		c.Check(looks == "", core.SSAName(fn)+"|no-lookup-by-name", p.Pos(fn.Pos()),
+			core.SSAName(fn)+ife(looks == "", " builds symbol tables from the stored form without looking a name up in a table", " looks a name up in a symbol table (at "+looks+") while loading: the symbol it finds is the one that the whole program declares under that name, which need not be the one the stored form names"))
+	}
+	if n < 5 {
+		core.Undecidedf("only %d loader functions found", n)
+	}
+	c.Stat("loader_functions", n)
+}
+
+// ---------------------------------------------------------------------------
+// regexpMethodsAnswerWithTheRegexp: the methods of a compiled regular
+// expression wrap the methods of Go's regexp.Regexp, and what they hand back is
+// what that method returned.  A result computed by package strings instead (a
+// fast path for a pattern without metacharacters) agrees with the regexp only
+// where the two happen to: strings.ReplaceAll does not expand $1 and $$ in the
+// replacement, Regexp.ReplaceAllString does.
+func regexpMethodsAnswerWithTheRegexp(c *core.Ctx) {
+	p := c.P
+	if !p.HasPkg("modules/regexp") {
+		core.Undecidedf("modules/regexp not loaded")
+	}
+	isRegexpCall := func(w ssa.Value) bool {
+		call, ok := w.(*ssa.Call)
+		if !ok {
+			return false
+		}
+		cal := call.Call.StaticCallee()
+		if cal == nil || cal.Pkg == nil || cal.Pkg.Pkg.Path() != "regexp" {
+			return false
+		}
+		// (the methods that compute an answer, not the ones that describe the pattern)
+		for _, pre := range []string{"Find", "Replace", "Match", "Split", "Expand"} {
+			if strings.HasPrefix(cal.Name(), pre) {
+				return true
+			}
+		}
+		return false
+	}
+	isStringsCall := func(w ssa.Value) bool {
+		call, ok := w.(*ssa.Call)
+		if !ok {
+			return false
+		}
+		cal := call.Call.StaticCallee()
+		return cal != nil && cal.Pkg != nil && (cal.Pkg.Pkg.Path() == "strings" || cal.Pkg.Pkg.Path() == "bytes")
+	}
+	n := 0
+	for _, fn := range repoFns(p, "modules/regexp") {
+		uses := false
+		for _, b := range fn.Blocks {
+			for _, in := range b.Instrs {
+				if v, ok := in.(ssa.Value); ok && isRegexpCall(v) {
+					uses = true
+				}
+			}
+		}
+		if !uses {
+			continue
+		}
+		k := 0
+		for _, b := range fn.Blocks {
+			for _, in := range b.Instrs {
+				ret, ok := in.(*ssa.Return)
+				if !ok || len(ret.Results) != 1 {
+					continue
+				}
+				res := spilledResult(b, ret.Results[0])
+				viaStrings := core.DependsOnAvoiding(res, isStringsCall, isRegexpCall)
+				if !viaStrings {
+					continue
+				}
+				viaRegexp := core.DependsOn(res, isRegexpCall)
+				n++
+				k++
+				// (strings functions applied to what the regexp returned are fine)
+				c.Check(viaRegexp && !core.DependsOnAvoiding(res, func(w ssa.Value) bool {
+					// a strings call none of whose arguments comes from the regexp
+					if !isStringsCall(w) {
+						return false
+					}
+					for _, a := range w.(*ssa.Call).Call.Args {
+						if core.DependsOn(a, isRegexpCall) {
+							return false
+						}
+					}
+					return true
+				}, isRegexpCall), core.SSAName(fn)+"|result-from-the-regexp|"+sprintf("%d", k), p.Pos(ret.Pos()),
+					core.SSAName(fn)+" wraps a method of regexp.Regexp and returns a result that package strings computed from the arguments, without the regexp: the two agree only where the pattern and the replacement have nothing in them that the regexp treats specially ($1, $$)")
+			}
+		}
+	}
+	if n == 0 {
+		c.Pass("modules/regexp|results-come-from-the-regexp", "", "no method of the regexp object returns a result computed by package strings")
+	}
+	c.Stat("regexp_results_via_strings", n)
 }
